@@ -362,6 +362,8 @@ def meas_cases(tier, seed):
                 for pk in (["uniform", "ramp", "g0"] if k > 1 else ["uniform"]):
                     for form in ("vec", "dm"):
                         yield {"kind": "pgm", "d": d, "kets": list(sub), "prior": pk, "form": form}
+                    if pk == "ramp" and k == 3:
+                        yield {"kind": "pgm", "d": d, "kets": list(sub), "prior": "zero0", "form": "vec"}
                     if pk == "ramp":
                         # ensembles that mix the two documented forms (added after seeded change C19-7, which chose the
                         # conversion from the first element only) and 1-D vectors
@@ -463,7 +465,11 @@ def meas_check(case):
             dms = [catalog.density(d, k) for k in case["dms"]]
             states = [m.copy() for m in dms]
         n = len(dms)
-        probs = catalog.prior(n, case["prior"])
+        if case["prior"] == "zero0":  # the first state is never prepared (prior exactly 0): its operator must be 0, the rest a POVM
+            probs = np.arange(0, n, dtype=float)
+            probs = probs / probs.sum()
+        else:
+            probs = catalog.prior(n, case["prior"])
         avg = sum(p * r for p, r in zip(probs, dms))
         if np.linalg.eigvalsh(avg).min() < 1e-3:
             return rejected("ensemble does not span the space")
